@@ -1,0 +1,138 @@
+//go:build verif
+
+package main
+
+// Driver for the correspondence check of property C01 (/verif): runs the real
+// watchBackend loop on scripted WatchServices/WatchManual channels and records
+// route.GetTable() at the marked points.  Reads the scripts from the file named by
+// VERIF_C01_IN and writes the observations to VERIF_C01_OUT; skipped otherwise.
+
+import (
+	"encoding/json"
+	"io"
+	"log"
+	"os"
+	"sort"
+	"testing"
+	"time"
+
+	"github.com/fabiolb/fabio/config"
+	"github.com/fabiolb/fabio/registry"
+	"github.com/fabiolb/fabio/route"
+)
+
+type verifC01Backend struct {
+	svc, man chan string
+	regs     int
+}
+
+func (b *verifC01Backend) Register(services []string) error { b.regs++; return nil }
+func (b *verifC01Backend) DeregisterAll() error             { return nil }
+func (b *verifC01Backend) Deregister(service string) error  { return nil }
+func (b *verifC01Backend) ManualPaths() ([]string, error)   { return nil, nil }
+func (b *verifC01Backend) ReadManual(path string) (string, uint64, error) {
+	return "", 0, nil
+}
+func (b *verifC01Backend) WriteManual(path string, value string, version uint64) (bool, error) {
+	return false, nil
+}
+func (b *verifC01Backend) WatchServices() chan string    { return b.svc }
+func (b *verifC01Backend) WatchManual() chan string      { return b.man }
+func (b *verifC01Backend) WatchNoRouteHTML() chan string { return make(chan string) }
+
+type verifC01Event struct {
+	Man  bool   `json:"man"`  // false: value arrives on the WatchServices channel
+	Text string `json:"text"` // the config text delivered
+	Obs  bool   `json:"obs"`  // record the active table once this event has been accepted
+}
+
+type verifC01Seq struct {
+	Events []verifC01Event `json:"events"`
+}
+
+type verifC01Out struct {
+	Tables   [][][4]string `json:"tables"`    // one per Obs event
+	FirstSet []bool        `json:"first_set"` // was the `first` channel closed at that point
+	Stuck    bool          `json:"stuck"`     // the loop did not accept an event within 20 s
+}
+
+func verifC01Dump(t route.Table) [][4]string {
+	out := [][4]string{}
+	for _, routes := range t {
+		for _, r := range routes {
+			for _, tg := range r.Targets {
+				u := ""
+				if tg.URL != nil {
+					u = tg.URL.String()
+				}
+				out = append(out, [4]string{r.Host, r.Path, tg.Service, u})
+			}
+		}
+	}
+	sort.Slice(out, func(i, j int) bool {
+		for k := 0; k < 4; k++ {
+			if out[i][k] != out[j][k] {
+				return out[i][k] < out[j][k]
+			}
+		}
+		return false
+	})
+	return out
+}
+
+func TestVerifC01(t *testing.T) {
+	in, outp := os.Getenv("VERIF_C01_IN"), os.Getenv("VERIF_C01_OUT")
+	if in == "" || outp == "" {
+		t.Skip("VERIF_C01_IN / VERIF_C01_OUT not set")
+	}
+	log.SetOutput(io.Discard)
+	data, err := os.ReadFile(in)
+	if err != nil {
+		t.Fatal(err)
+	}
+	var seqs []verifC01Seq
+	if err := json.Unmarshal(data, &seqs); err != nil {
+		t.Fatal(err)
+	}
+	outs := make([]verifC01Out, len(seqs))
+	for si, seq := range seqs {
+		route.SetTable(make(route.Table))
+		be := &verifC01Backend{svc: make(chan string), man: make(chan string)}
+		registry.Default = be
+		first := make(chan bool)
+		cfg := &config.Config{}
+		cfg.Registry.Backend = "consul"
+		cfg.Log.RoutesFormat = "delta"
+		go watchBackend(cfg, nil, first)
+		o := &outs[si]
+		o.Tables = [][][4]string{}
+		for _, ev := range seq.Events {
+			ch := be.svc
+			if ev.Man {
+				ch = be.man
+			}
+			select {
+			case ch <- ev.Text:
+			case <-time.After(20 * time.Second):
+				o.Stuck = true
+			}
+			if o.Stuck {
+				break
+			}
+			if ev.Obs {
+				o.Tables = append(o.Tables, verifC01Dump(route.GetTable()))
+				select {
+				case <-first:
+					o.FirstSet = append(o.FirstSet, true)
+				default:
+					o.FirstSet = append(o.FirstSet, false)
+				}
+			}
+		}
+		time.Sleep(time.Millisecond)
+	}
+	b, _ := json.Marshal(outs)
+	if err := os.WriteFile(outp, b, 0o644); err != nil {
+		t.Fatal(err)
+	}
+}
